@@ -232,6 +232,95 @@ pub fn oracle(case: &Case, res: &SpResult, panics: &[String]) -> Outcome {
     out
 }
 
+/// Structured decoding of a fuzzer's byte string into a case (hand-written counterpart of `strategy`, so that
+/// libFuzzer's mutations stay local: one op is a handful of bytes).
+pub fn decode(data: &[u8]) -> Case {
+    use arbitrary::Unstructured;
+    let mut u = Unstructured::new(data);
+    macro_rules! r { ($lo:expr, $hi:expr) => { u.int_in_range($lo..=$hi).unwrap_or($lo) }; }
+    macro_rules! b { () => { u.arbitrary::<bool>().unwrap_or(false) }; }
+    fn bytes(u: &mut Unstructured, max: usize) -> Vec<u8> {
+        let n = u.int_in_range(0..=max).unwrap_or(0);
+        u.bytes(n.min(u.len())).map(|b| b.to_vec()).unwrap_or_default()
+    }
+    fn sack(u: &mut Unstructured) -> Option<Vec<u8>> {
+        match u.int_in_range(0u8..=7).unwrap_or(0) {
+            0..=2 => None,
+            3 => Some(bytes(u, 3)),
+            4 => { let mut v = bytes(u, 4); v.resize(4, 0xff); Some(v) }
+            5 => { let mut v = bytes(u, 8); v.resize(8, 0x55); Some(v) }
+            6 => { let n = u.int_in_range(5usize..=255).unwrap_or(5); Some(vec![0xff; n]) }
+            _ => Some(bytes(u, 64)),
+        }
+    }
+    fn wnd(u: &mut Unstructured) -> u32 {
+        match u.int_in_range(0u8..=6).unwrap_or(0) { 0..=2 => 1 << 20, 3 => 0, 4 => u32::MAX, 5 => u.int_in_range(1u32..=3000).unwrap_or(1), _ => u.arbitrary().unwrap_or(0) }
+    }
+    fn i16ish(u: &mut Unstructured, lo: i16, hi: i16) -> i16 {
+        if u.ratio(1u8, 8u8).unwrap_or(false) { u.arbitrary().unwrap_or(0) } else { u.int_in_range(lo..=hi).unwrap_or(lo) }
+    }
+    fn crafted(u: &mut Unstructured) -> PeerOp {
+        let ptype = [0u8, 2, 0, 2, 0, 2, 1, 3, 4][u.int_in_range(0usize..=8).unwrap_or(0)];
+        PeerOp::Crafted { ptype, dseq: i16ish(u, -3, 8), dack: i16ish(u, -4, 40), wnd: wnd(u), sack: sack(u), did: if u.ratio(1u8, 7u8).unwrap_or(false) { u.int_in_range(-2i8..=2).unwrap_or(0) } else { 0 }, len: match u.int_in_range(0u8..=5).unwrap_or(0) { 0..=2 => 0, 3 | 4 => u.int_in_range(1u16..=1500).unwrap_or(1), _ => u.int_in_range(1500u16..=16000).unwrap_or(1500) } }
+    }
+    let v6 = b!();
+    let mtus: &[u16] = if v6 { &[78, 120, 300, 1280, 1400, 1500, 1500, 9000] } else { &[58, 100, 300, 576, 1000, 1280, 1500, 1500, 9000] };
+    let link_mtu = mtus[r!(0usize, mtus.len() - 1)];
+    let mut sock = SockCfg { v6, link_mtu, max_live: 64, wait_lastack: b!(), tx_init: if b!() { 32 * 1024 } else { r!(256u32, 8192) }, rnd: vec![u.arbitrary().unwrap_or(0), u.arbitrary().unwrap_or(0), u.arbitrary().unwrap_or(0)], ..SockCfg::default() };
+    sock.rx_buf = match r!(0u8, 5) { 0..=2 => r!(1u32, 11) * sock.max_payload().max(1) as u32, 3 | 4 => r!(500u32, 300_000).max(2 * sock.max_payload() as u32), _ => 1 << 20 };
+    let maxp = sock.max_payload().max(1) as u16;
+    let minp = sock.min_payload().max(1) as u32;
+    let incoming = b!();
+    let peer_isn: u16 = if u.ratio(1u8, 4u8).unwrap_or(false) { r!(65490u32, 65535) as u16 } else { u.arbitrary().unwrap_or(0) };
+    let conn_id: u16 = u.arbitrary().unwrap_or(0);
+    let key: u64 = u.arbitrary().unwrap_or(0);
+    let complete = !u.ratio(1u8, 7u8).unwrap_or(false);
+    let bystander = if u.ratio(6u8, 7u8).unwrap_or(true) {
+        let n_to = r!(0u32, 60_000).min(300 * minp);
+        let n_from = r!(0u32, 60_000).min(300 * minp);
+        Some(Bystander { incoming: b!(), n_to_sock: n_to, n_from_sock: n_from, key: u.arbitrary().unwrap_or(1), start_ms: r!(0u32, 29), probe: true, rnd: vec![u.arbitrary().unwrap_or(0), u.arbitrary().unwrap_or(0), u.arbitrary().unwrap_or(0)] })
+    } else { None };
+    let n = r!(3usize, 120);
+    let mut steps = vec![];
+    for _ in 0..n {
+        if u.is_empty() { break; }
+        let step = match r!(0u8, 39) {
+            0..=6 => Step::Peer(PeerOp::Data { dseq: if b!() { 0 } else { i16ish(&mut u, -6, 70) }, len: match r!(0u8, 4) { 0 => 1, 1 | 2 => r!(1u16, maxp), 3 => maxp, _ => r!(1u16, 16000) } }),
+            7..=11 => Step::Peer(PeerOp::Ack { back: i16ish(&mut u, -40, 4), wnd: wnd(&mut u), sack: sack(&mut u) }),
+            12 => Step::Peer(PeerOp::AckAdv { adv: r!(1u16, 4), wnd: wnd(&mut u), sack: sack(&mut u) }),
+            13 => Step::Peer(PeerOp::DupAck(r!(1u8, 4))),
+            14 => { let dseq = i16ish(&mut u, -3, 6); Step::Peer(if b!() { PeerOp::FinAck { dseq } } else { PeerOp::Fin { dseq } }) }
+            15 => if u.ratio(1u8, 3u8).unwrap_or(false) { Step::Peer(PeerOp::Reset { ack_fin: b!() }) } else { Step::Peer(PeerOp::SynDup) },
+            16 | 17 => Step::Peer(PeerOp::Raw(bytes(&mut u, 64))),
+            18..=23 => Step::Peer(crafted(&mut u)),
+            24..=28 => {
+                let base = crafted(&mut u);
+                let nf = r!(0usize, 3);
+                let flips = (0..nf).map(|_| (if u.ratio(1u8, 6u8).unwrap_or(false) { u.arbitrary().unwrap_or(0) } else { u.int_in_range(0u16..=29).unwrap_or(0) }, u.arbitrary().unwrap_or(0))).collect();
+                Step::Peer(PeerOp::Mangled { base: Box::new(base), flips, first_ext: if b!() { Some(if b!() { r!(0u8, 3) } else { u.arbitrary().unwrap_or(0) }) } else { None }, append: bytes(&mut u, 40), trunc: if b!() { Some(r!(0u16, 63)) } else { None } })
+            }
+            29..=33 => {
+                let src = if b!() { 4 } else { r!(0u8, 3) };
+                let pkt = if u.ratio(1u8, 5u8).unwrap_or(false) { ForeignPkt::Raw(bytes(&mut u, 64)) } else {
+                    ForeignPkt::Hdr { ptype: r!(0u8, 4), id_sel: r!(0u8, 2), id: u.arbitrary().unwrap_or(0), seq: u.arbitrary().unwrap_or(0), ack: u.arbitrary().unwrap_or(0), wnd: wnd(&mut u), sack: sack(&mut u), len: if b!() { 0 } else { r!(1u16, 1500) } }
+                };
+                Step::Peer(PeerOp::Foreign { src, pkt })
+            }
+            34 => Step::W(WOp::Write { n: r!(1u32, 5000), chunk: 65536 }),
+            35 => match r!(0u8, 7) { 0 => Step::W(WOp::Shutdown), 1 => Step::W(WOp::Drop), 2 => Step::R(ROp::Drop), 3 => Step::R(ROp::ReadToEnd { buf: 65536 }), _ => Step::W(WOp::Write { n: r!(1u32, 5000), chunk: 65536 }) },
+            36 => Step::R(ROp::Read { n: r!(1u32, 30_000), buf: r!(1u32, 65536) }),
+            37 | 38 => Step::Adv(r!(1u32, 50)),
+            _ => Step::Adv(if u.ratio(1u8, 4u8).unwrap_or(false) { r!(5000u32, 15_000) } else { r!(200u32, 1500) }),
+        };
+        steps.push(step);
+    }
+    let mut linger_ms = 4000;
+    if let Some(b) = &bystander {
+        linger_ms = 6000 + ((b.n_to_sock + b.n_from_sock) / minp) * 45;
+    }
+    SpCase { sock, incoming, peer_isn, conn_id, peer_wnd: 1 << 20, complete_handshake: complete, key, steps, linger_ms, discipline: false, bystander }
+}
+
 pub struct Hostile;
 impl CheckDef for Hostile {
     type Case = Case;
